@@ -62,6 +62,15 @@ crypt_yescrypt_rn (const char *phrase, size_t phr_size,
 
 #endif /* !INCLUDE_yescrypt */
 
+  /* The result consists of the setting without a trailing hash (the
+     part following the last '$'), a '$', and 43 characters of hash.
+     Do not count a trailing hash twice, or a hash that was produced
+     from a long setting would be refused as a setting itself.
+     yescrypt_r checks the exact size again.  */
+  const char *hash_sep = strrchr (setting, '$');
+  if (hash_sep && hash_sep > setting + 2)
+    set_size = (size_t) (hash_sep - setting);
+
   if (o_size < set_size + 1 + 43 + 1 ||
       CRYPT_OUTPUT_SIZE < set_size + 1 + 43 + 1 ||
       s_size < sizeof (crypt_yescrypt_internal_t))
